@@ -43,6 +43,9 @@ def corpus():
         case(1000000.0, 3600 * S, 60 * S, 1800 * S + 40 * S, 300 * S, [], 2),       # peak in the second half of a tick
         case(23499.0, 600 * S, S, 300 * S, 75 * S, [1.0, 1.0], 2),
         "gauss %s %d %d %d 0 - 0 3" % (fbits(100.0), 60 * S, S, 30 * S),
+        case(100000.0, 3600 * S, 60 * S, 1800 * S, 600 * S, [1.0, 2.0, 3.0, 4.0], 3) + " 60:1",     # window 1 is never seen (a stalled tick loop): window 2 still gets its own weight
+        case(100000.0, 3600 * S, 60 * S, 1800 * S, 600 * S, [1.0, 2.0, 3.0, 4.0], 3) + " 120:5",
+        case(50000.0, 600 * S, 10 * S, 300 * S, 60 * S, [3.0, 1.0, 2.0], 4) + " 60:2",
         case(100000.0, 3600 * S, 60 * S, 1800 * S, 600 * S, [2.0], 2),               # a single weight is its own mean
         case(100000.0, 3600 * S, 60 * S, 1800 * S, 600 * S, [0.5], 1),
         case(100000.0, 168 * 3600 * S, 3600 * S, 84 * 3600 * S, 12 * 3600 * S, [], 2),   # weekly window (does not divide the zero-time/epoch distance)
@@ -79,6 +82,8 @@ def generate(rng, tier):
             out.append(scase(rng.choice([100.0, 1e4, 23499.0]), rep, freq, peak, sd, ",".join(strs), len(strs), windows))
         else:
             out.append(case(rng.choice([100.0, 1e4, 23499.0, 1e6]), rep, freq, peak, sd, ws, windows))
+            if len(ws) > 1 and windows > 1 and rng.random() < 0.5:      # a window (or several) that this calculator never sees
+                out[-1] += " %d:%d" % ((rep // freq) * rng.randint(1, windows - 1), rng.randint(1, 2 * len(ws)))
     return out
 
 
